@@ -1037,6 +1037,9 @@ func c20LpEpisode(r *Rec, n int) {
 	if (n/3)%2 == 1 {
 		denoms = []string{"alp", "Alp"} // two dApps whose token denominations differ in letter case only: two LP tokens
 	}
+	if (n/3)%5 == 2 {
+		denoms = []string{"ukex", "bet"} // a dApp whose own token is an already registered one (the native token): LP token lp/ukex
+	}
 	ep := newL2Ep(r, 4, names, denoms, 1, 5, 100, -1)
 	r.Mark(fmt.Sprintf("lp episode %d", n))
 	fees := []string{c20Fees[r.Rng.Intn(len(c20Fees))], c20Fees[r.Rng.Intn(len(c20Fees))]}
